@@ -24,6 +24,10 @@ CLAIMED = {
   text="Bounded symbolic execution of the real relay flow-control code (updateInitialWindowSize, updateWindow, data, emitEligibleFrames, sendWindowUpdates, queued frames, with the real x/net http2.Framer on both sides, all from SSA) over symbolic histories: SETTINGS initial window values and WINDOW_UPDATE increments are symbolic 31-bit integers, so z3 decides every relation between window and frame size. A ledger oracle in the harness asserts: bytes delivered never exceed the receiver's credit per stream and connection, credit returned to the sender equals the flow-controlled length (payload+padding+pad octet) of every accepted DATA frame, no frame exceeds the symbolic SETTINGS_MAX_FRAME_SIZE, and no queue head that fits both windows is left stranded.",
   note="Bounds: histories of 3 (quick) / 4 (thorough) events over 2 streams, DATA payload 0..3 bytes, pad length 0 or 2; max-frame scenario: one 16386-byte payload, m symbolic in [16384, 2^24). Sequential schedule (the harness drains the output queue after each frame; the reader/writer goroutines are C10's subject). Lenient reading: the relay is not required to split a frame to fit a smaller window. Trusted: go/ssa, symgo, z3; x/net http2 framing is executed, not stubbed.",
   ref="DESIGN.md section 6, C09"),
+ "C08": dict(
+  text="Bounded symbolic execution of the real relay (processFrame, header/data/priority/rstStream/pushPromise, enqueue/emit, continuation reassembly, queued frame senders, forwardPreface) together with the real x/net http2.Framer and hpack encoder/decoder, all from SSA: frame scripts are written by a harness-side Framer (so only RFC-valid frames arise), relayed, and parsed on the far side by another Framer and an HPACK decoder fed in wire order; per stream the received sequence must equal the sent one (decoded field lists, DATA bytes, END_STREAM position, RST codes, priorities, promised ids) and connection frames must have identical contents. DATA bytes, priority fields, error codes, PING/GOAWAY payloads and promised ids are symbolic (decided by z3); fragmentation points, padding, END_STREAM placement, direction and the receiver's window schedule are enumerated.",
+  note="Bounds: one stream lifecycle (header block whole/2/3 frames x priority x padding x END_STREAM, <=2 DATA frames of 0 or 2 symbolic bytes, trailers/empty END_STREAM/RST), a two-stream scenario with DATA blocked by a zero stream window, single connection-level frames in both directions, preface cut at every point. Sequential schedule; header contents from a small concrete set (HPACK itself is x/net's). Known findings listed in known_findings.txt: HPACK encode-at-enqueue reordering, continued PUSH_PROMISE rejected by the pinned x/net Framer. Trusted: go/ssa, symgo, z3.",
+  ref="DESIGN.md section 6, C08"),
 }
 
 NOT_YET = "check not built yet in this round; planned with the same technique (DESIGN.md section 6)"
